@@ -85,16 +85,17 @@ type sizes struct {
 	arr1Len, arr2Len, arr3Len int // item length bound for arrays of exactly 1, 2, 3 items
 	obj1Name, obj1Val         int // one member: name / value length bound
 	obj2Name, obj2Val         int // two members
+	mapObj1Val, mapObj2Val    int // map shape: value length bounds (same uri calls as object for in-band rows)
 	intArrMax                 int
 	describe                  string
 }
 
 func tierSizes(thorough bool) sizes {
 	if thorough {
-		return sizes{primLen: 3, arr1Len: 3, arr2Len: 3, arr3Len: 1, obj1Name: 2, obj1Val: 3, obj2Name: 1, obj2Val: 2, intArrMax: 3,
-			describe: "thorough: primitive strings |s|<=3; arrays: 0 items, 1 item |s|<=3, 2 items |s|<=3 each, 3 items |s|<=1 each (cap); objects/maps: (maps: 0 members,) 1 member name<=2 value<=3, 2 members with distinct names |s|<=1 and values |s|<=2 (cap); structs with two optional properties: both/one/none set; struct without properties; integer arrays of <=3 items over 8 integers"}
+		return sizes{primLen: 3, arr1Len: 3, arr2Len: 3, arr3Len: 2, obj1Name: 2, obj1Val: 3, obj2Name: 1, obj2Val: 2, mapObj1Val: 2, mapObj2Val: 1, intArrMax: 3,
+			describe: "thorough: primitive strings |s|<=3; arrays: 0 items, 1 item |s|<=3, 2 items |s|<=3 each, 3 items |s|<=2 each (cap); objects: 1 member name<=2 value<=3, 2 members with distinct names |s|<=1 and values |s|<=2 (cap); maps (same uri calls as objects, differ only in the decoding config): 0 members, 1 member name<=2 value<=2, 2 members names |s|<=1 values |s|<=1 (cap); structs with two optional properties: both/one/none set; struct without properties; integer arrays of <=3 items over 8 integers"}
 	}
-	return sizes{primLen: 2, arr1Len: 2, arr2Len: 2, arr3Len: 1, obj1Name: 2, obj1Val: 2, obj2Name: 1, obj2Val: 1, intArrMax: 3,
+	return sizes{primLen: 2, arr1Len: 2, arr2Len: 2, arr3Len: 1, obj1Name: 2, obj1Val: 2, obj2Name: 1, obj2Val: 1, mapObj1Val: 2, mapObj2Val: 1, intArrMax: 3,
 		describe: "quick: primitive strings |s|<=2; arrays: 0 items, 1 item |s|<=2, 2 items |s|<=2 each, 3 items |s|<=1 each (cap); objects/maps: (maps: 0 members,) 1 member name<=2 value<=2, 2 members with distinct names |s|<=1 and values |s|<=1 (cap); structs with two optional properties: both/one/none set; struct without properties; integer arrays of <=3 items over 8 integers"}
 }
 
@@ -149,6 +150,9 @@ func domain(c Combo, z sizes) []block {
 	case "object", "map":
 		n1, v1 := S(z.obj1Name), S(z.obj1Val)
 		n2, v2 := S(z.obj2Name), S(z.obj2Val)
+		if c.Shape == "map" {
+			v1, v2 = S(z.mapObj1Val), S(z.mapObj2Val)
+		}
 		// ordered pairs of distinct names
 		type pair struct{ a, b string }
 		var pairs []pair
@@ -212,7 +216,7 @@ func domain(c Combo, z sizes) []block {
 
 // ---------------------------------------------------------------- random values
 
-var pool = []string{"a", "b", "x1", ",", ".", ";", "=", "|", " ", "%", "/", "&", "+", "é", "[", "]", "?", "#", "\"", "\\", "%2C", "%41", "%", "%zz", "\t", "\x00", "\r\n", "\x7f", "\xff", "日本", "😀", ":", "@", "~", "{", "}", "'", "<", ">"}
+var textPool = []string{"a", "b", "x1", ",", ".", ";", "=", "|", " ", "%", "/", "&", "+", "é", "[", "]", "?", "#", "\"", "\\", "%2C", "%41", "%", "%zz", "\t", "\x00", "\r\n", "\x7f", "\xff", "日本", "😀", ":", "@", "~", "{", "}", "'", "<", ">"}
 
 func randText(rng *ev.Rand) string {
 	var b strings.Builder
@@ -232,7 +236,7 @@ func randText(rng *ev.Rand) string {
 		case 2:
 			b.WriteByte(byte(0x20 + rng.Intn(0x5f)))
 		default:
-			b.WriteString(ev.Pick(rng, pool))
+			b.WriteString(ev.Pick(rng, textPool))
 		}
 	}
 	return b.String()
